@@ -101,6 +101,20 @@ theorem accepted_resolve_obeys_rule4 (m m' : MState) (client : String) (fate : F
     (C = 0 → (∃ a ∈ t.statusAnswers, a.2 = true) ∨ 0 ∈ t.secOutcomes) :=
   monitor_accepts_resolve m m' client fate S C h
 
+/-- rule 5, recovery half: an accepted CheckSecondaryLocks request (async-commit recovery) of a non-GC client comes after the
+    ttl that client's latest status check of the transaction reported has elapsed on a timestamp the oracle issued -/
+theorem accepted_recovery_obeys_rule5 (m m' : MState) (client : String) (S : Nat)
+    (h : Monitor.step m (.secCheck client S) = .ok m') :
+    isGC client = true ∨
+      ∀ e, (m.get S client).statusTTLs.find? (·.1 == client) = some e → e.2 = 0 ∨ physical S + e.2 ≤ physical m.maxTSO :=
+  monitor_accepts_secCheck m m' client S h
+
+/-- rule 8 for pessimistic lock requests: the primary named is being locked by the request or was locked before -/
+theorem accepted_plock_obeys_rule8 (m m' : MState) (client : String) (fate : Fate) (S : Nat) (p : Bytes) (keys : List Bytes)
+    (ok : Bool) (h : Monitor.step m (.plock client fate S p keys ok) = .ok m') :
+    p ∈ keys ∨ p ∈ (m.get S client).plockedKeys :=
+  monitor_accepts_plock m m' client fate S p keys ok h
+
 /-- rule 9: the op derived from a buffer entry is the one the property text prescribes, for all 64 fact combinations -/
 theorem init_mutations_spec (pess : Bool) (b : BufEntry) :
     initOp pess b = initOpTable pess b.hasValue b.value.isEmpty b.presumeNotExists b.newlyInserted b.locked :=
